@@ -15,7 +15,7 @@ from . import build
 from .common import BUILD, NCPU, REPLAYS, RUN, VERIF, Outcome, load_known, log, save_violation_case, sha
 
 SAN_ENV = {
-    "ASAN_OPTIONS": "detect_leaks=0:exitcode=87:allocator_may_return_null=1:handle_abort=0:symbolize=1",
+    "ASAN_OPTIONS": "detect_leaks=0:exitcode=87:allocator_may_return_null=1:handle_abort=0:symbolize=1:quarantine_size_mb=16",
     "UBSAN_OPTIONS": "halt_on_error=1:exitcode=87:print_stacktrace=1:symbolize=1",
     "ASAN_SYMBOLIZER_PATH": shutil.which("llvm-symbolizer") or shutil.which("llvm-symbolizer-14") or "",
 }
@@ -96,7 +96,11 @@ def _run_job(exe, job, known, workdir):
     if known:
         cmd += ["--known", ",".join(sorted(known))]
     t0 = time.time()
-    r = subprocess.run(cmd, capture_output=True, text=True, env=_env(), errors="replace")
+    env = _env()
+    # shard identity / budget for sub-properties that partition a fixed space themselves (E-sched "exhaustive")
+    env.update({"VP_SHARD": str(job["shard"]), "VP_SHARDS": str(job.get("shards", 1)), "VP_BUDGET_S": str(job["budget_s"])})
+    env.update({str(k): str(v) for k, v in job.get("env", {}).items()})
+    r = subprocess.run(cmd, capture_output=True, text=True, env=env, errors="replace")
     res = None
     if os.path.exists(out):
         try:
@@ -140,17 +144,19 @@ def run_unit(pid, meta, tier, seed, replay=None):
 
     # 2. generated search
     tp = meta["tiers"][tier]
-    props = _list_props(exe)
+    props = [p for p in _list_props(exe) if p not in tp.get("skip_props", [])]
     shares = meta.get("shares", {})
     total_share = sum(shares.get(p, 1.0) for p in props)
     shards = int(tp.get("shards", 1))
     jobs = []
     for p in props:
         cases = max(1, int(tp["cases"] * shares.get(p, 1.0) / total_share))
-        for s in range(shards):
+        pshards = int(tp.get("prop_shards", {}).get(p, shards))  # optional per-sub-property shard count
+        for s in range(pshards):
             jobs.append({"prop": p, "shard": s, "seed": (seed * 1000003 + s * 7919 + 1) & 0x7FFFFFFFFFFFFFFF,
-                         "cases": max(1, cases // shards), "max_size": tp.get("max_size", 100),
-                         "budget_s": tp.get("budget_s", 120), "batch": tp.get("batch", 1000)})
+                         "cases": max(1, cases // pshards), "max_size": tp.get("max_size", 100),
+                         "budget_s": tp.get("budget_s", 120), "batch": tp.get("batch", 1000),
+                         "shards": pshards, "env": tp.get("env", {})})
     workdir = os.path.join(RUN, pid)
     os.makedirs(workdir, exist_ok=True)
     with ThreadPoolExecutor(max_workers=min(NCPU, len(jobs))) as ex:
@@ -241,6 +247,13 @@ def run_unit(pid, meta, tier, seed, replay=None):
         run_fuzz(pid, meta, tp, seed, known, out)
     if tp.get("exhaustive"):
         out.exhaustive = True
+    if tp.get("exhaustive_if"):
+        # {"prop": P, "label": L, "not_label": N}: exhaustive only when every shard of P reported L and none N
+        ei = tp["exhaustive_if"]
+        lab = per_prop.get(ei["prop"], {}).get("labels", {})
+        need = int(tp.get("prop_shards", {}).get(ei["prop"], shards))
+        out.exhaustive = bool(lab.get(ei["label"], 0) >= need and not lab.get(ei.get("not_label", ""), 0)
+                              and not out.violations)
     return out.finish()
 
 
